@@ -39,8 +39,22 @@ func walletSteps(c *Ctx) (apply, revert *ir.Func) {
 		if !takesTx {
 			continue
 		}
+		var carried []types.Type
 		for _, fld := range f.Type.Params.List {
-			t := f.Info().TypeOf(fld.Type)
+			carried = append(carried, f.Info().TypeOf(fld.Type))
+		}
+		// the update may be the receiver: a small type that wraps it (`appliedBlock struct{ chain.ApplyUpdate }`)
+		if f.Obj != nil {
+			if recv := f.Obj.Type().(*types.Signature).Recv(); recv != nil {
+				carried = append(carried, recv.Type())
+				if st, ok := recv.Type().Underlying().(*types.Struct); ok {
+					for i := 0; i < st.NumFields(); i++ {
+						carried = append(carried, st.Field(i).Type())
+					}
+				}
+			}
+		}
+		for _, t := range carried {
 			if ir.IsNamed(t, ir.PkgPath("chain"), "ApplyUpdate") {
 				apply = f
 			}
